@@ -57,6 +57,49 @@ theorem C02_minimiser_cubic (h P : List ℝ) (v0 vn : ℝ) (hpos : PosList h) (h
     (thru_of_getD g 0 h P hP hk) hv0 (by simpa using hvn)
   simpa using this
 
+/-- **the full variational statement (quintic)**: among all C³ curves through the same waypoints at the same knot times with
+the same boundary velocities and accelerations, the built spline has the least ∫ (third derivative)² -/
+theorem C02_minimiser_quintic (h P : List ℝ) (bL bR : V2 ℝ) (hpos : ∀ x ∈ h, 0 < x) (hne : h ≠ [])
+    (hP : P.length = h.length + 1) (g : ℝ → ℝ) (hg : ContDiff ℝ 3 g)
+    (hk : ∀ i, i ≤ h.length → g ((cumulative (0:ℝ) h).getD i 0) = P.getD i 0)
+    (hv0 : deriv g 0 = bL.x) (ha0 : deriv (deriv g) 0 = bL.y)
+    (hvn : deriv g h.sum = bR.x) (han : deriv (deriv g) h.sum = bR.y) :
+    Quintic.energy h (Quintic.build h P bL bR) ≤ ∫ t in (0:ℝ)..h.sum, (deriv (deriv (deriv g)) t) ^ 2 := by
+  have h3 : ContDiff ℝ (2 + 1) g := by norm_num; exact hg
+  obtain ⟨hd, -, h2⟩ := contDiff_succ_iff_deriv.mp h3
+  have h2' : ContDiff ℝ (1 + 1) (deriv g) := by rw [one_add_one_eq_two]; exact h2
+  obtain ⟨hd1, -, h1⟩ := contDiff_succ_iff_deriv.mp h2'
+  have h1' : ContDiff ℝ (0 + 1) (deriv (deriv g)) := by rw [zero_add]; exact h1
+  obtain ⟨hd2, -, h0⟩ := contDiff_succ_iff_deriv.mp h1'
+  have comp : QuinticMin.Comp g (deriv g) (deriv (deriv g)) (deriv (deriv (deriv g))) :=
+    ⟨fun t => (hd t).hasDerivAt, fun t => (hd1 t).hasDerivAt, fun t => (hd2 t).hasDerivAt, h0.continuous⟩
+  have := QuinticMin.quintic_minimal h P bL bR hpos hne hP g _ _ _ comp 0
+    (thru_of_getD g 0 h P hP hk) hv0 ha0 (by simpa using hvn) (by simpa using han)
+  simpa using this
+
+/-- **the full variational statement (septic)**: among all C⁴ curves through the same waypoints at the same knot times with
+the same boundary velocities, accelerations and jerks, the built spline has the least ∫ (fourth derivative)² -/
+theorem C02_minimiser_septic (h P : List ℝ) (bL bR : V3 ℝ) (hpos : ∀ x ∈ h, 0 < x) (hne : h ≠ [])
+    (hP : P.length = h.length + 1) (g : ℝ → ℝ) (hg : ContDiff ℝ 4 g)
+    (hk : ∀ i, i ≤ h.length → g ((cumulative (0:ℝ) h).getD i 0) = P.getD i 0)
+    (hv0 : deriv g 0 = bL.x) (ha0 : deriv (deriv g) 0 = bL.y) (hj0 : deriv (deriv (deriv g)) 0 = bL.z)
+    (hvn : deriv g h.sum = bR.x) (han : deriv (deriv g) h.sum = bR.y) (hjn : deriv (deriv (deriv g)) h.sum = bR.z) :
+    Septic.energy h (Septic.build h P bL bR) ≤ ∫ t in (0:ℝ)..h.sum, (deriv (deriv (deriv (deriv g))) t) ^ 2 := by
+  have h4 : ContDiff ℝ (3 + 1) g := by norm_num; exact hg
+  obtain ⟨hd, -, h3⟩ := contDiff_succ_iff_deriv.mp h4
+  have h3' : ContDiff ℝ (2 + 1) (deriv g) := by norm_num; exact h3
+  obtain ⟨hd1, -, h2⟩ := contDiff_succ_iff_deriv.mp h3'
+  have h2' : ContDiff ℝ (1 + 1) (deriv (deriv g)) := by rw [one_add_one_eq_two]; exact h2
+  obtain ⟨hd2, -, h1⟩ := contDiff_succ_iff_deriv.mp h2'
+  have h1' : ContDiff ℝ (0 + 1) (deriv (deriv (deriv g))) := by rw [zero_add]; exact h1
+  obtain ⟨hd3, -, h0⟩ := contDiff_succ_iff_deriv.mp h1'
+  have comp : SepticMin.Comp g (deriv g) (deriv (deriv g)) (deriv (deriv (deriv g))) (deriv (deriv (deriv (deriv g)))) :=
+    ⟨fun t => (hd t).hasDerivAt, fun t => (hd1 t).hasDerivAt, fun t => (hd2 t).hasDerivAt, fun t => (hd3 t).hasDerivAt,
+      h0.continuous⟩
+  have := SepticMin.septic_minimal h P bL bR hpos hne hP g _ _ _ _ comp 0
+    (thru_of_getD g 0 h P hP hk) hv0 ha0 hj0 (by simpa using hvn) (by simpa using han) (by simpa using hjn)
+  simpa using this
+
 theorem C02_cubic_partial {K : Type} [Field K] [LinearOrder K] [IsStrictOrderedRing K]
     (v0 vn : K) (h P : List K) (hp : PosList h) (hne : h ≠ []) (hlen : P.length = h.length + 1) :
     CubicSpec vn h P (Cubic.build h P v0 vn) ∧ ∀ p ps, Cubic.build h P v0 vn = p :: ps → ev1 p 0 = v0 :=
